@@ -1,4 +1,5 @@
 use crate::DbError;
+use crate::DbErrorType;
 use crate::utilities::serialize::Serialize;
 use crate::utilities::serialize::SerializeStatic;
 use std::fs::File;
@@ -93,7 +94,7 @@ impl WriteAheadLog {
 
     fn read_record(file: &mut File) -> Result<WriteAheadLogRecord, DbError> {
         let pos = u64::deserialize(&Self::read_exact(file, u64::serialized_size_static())?)?;
-        let size = u64::deserialize(&Self::read_exact(file, u64::serialized_size_static())?)?;
+        let size = Self::read_value_size(file)?;
 
         Ok(WriteAheadLogRecord {
             pos,
@@ -103,9 +104,28 @@ impl WriteAheadLog {
 
     fn skip_record(file: &mut File) -> Result<(), DbError> {
         file.seek(SeekFrom::Current(u64::serialized_size_static() as i64))?;
-        let value_size = u64::deserialize(&Self::read_exact(file, u64::serialized_size_static())?)?;
+        let value_size = Self::read_value_size(file)?;
         file.seek(SeekFrom::Current(value_size as i64))?;
         Ok(())
+    }
+
+    /// Reads the size of a record's value and validates it against
+    /// the number of bytes actually remaining in the log.
+    fn read_value_size(file: &mut File) -> Result<u64, DbError> {
+        let value_size = u64::deserialize(&Self::read_exact(file, u64::serialized_size_static())?)?;
+        let remaining = file
+            .metadata()?
+            .len()
+            .saturating_sub(file.stream_position()?);
+
+        if remaining < value_size {
+            return Err(DbError::storage(
+                DbErrorType::OutOfBounds,
+                format!("WAL record size ({value_size}) exceeds remaining log size ({remaining})"),
+            ));
+        }
+
+        Ok(value_size)
     }
 
     fn repair(&mut self) -> Result<(), DbError> {
